@@ -347,7 +347,7 @@ SPEC = {
              'labels added with it), host discipline (old gates structurally / functionally unchanged). Non-trivial: '
              'width >= 2 and, for add_* forms, >=1 internal operand gate.'),
     'assumptions': ['reference tables from vlib/refsem.py'],
-    'subs': [Sub('arith', cases, check_arith, {'quick': 3200, 'thorough': 125000}),
+    'subs': [Sub('arith', cases, arith.with_label_collisions(check_arith), {'quick': 3200, 'thorough': 125000}),
              # the option product kind x live list x add_outputs x endianness x given labels is small; give it its own budget
              Sub('alias', lambda tier: cases(tier, force_alias=True), check_arith, {'quick': 1600, 'thorough': 40000})],
     'required_classes': {'arith': KINDS + ['generate', 'add', 'be', 'le', 'internal_operands', 'unequal_widths',
